@@ -43,3 +43,27 @@ impl StoreImpl for OtherStore {
         v
     }
 }
+
+// `const fn` inside an entraited impl block stays `const` on the re-emitted inherent impl: the
+// compiler evaluates it in the constants below (nothing is run).
+#[entrait(LimitsImpl, delegate_by = DelegateLimits)]
+pub trait Limits {
+    fn max_retries(&self) -> u32;
+    fn scaled(&self, by: u32) -> u32;
+}
+
+pub struct StaticLimits;
+
+#[entrait]
+impl LimitsImpl for StaticLimits {
+    pub const fn max_retries<D>(_deps: &D) -> u32 {
+        3
+    }
+    pub const fn scaled<D>(_deps: &D, by: u32) -> u32 {
+        by * 2
+    }
+}
+
+pub const RETRIES: u32 = StaticLimits::max_retries(&());
+pub static SLOTS: [u8; StaticLimits::scaled(&(), 2) as usize] = [0; 4];
+const _: () = assert!(RETRIES == 3);
